@@ -833,7 +833,10 @@ class _Psd:
         else:
             a['x'] = g.arr(okind, [F, D, T], dtype=dt)
         if v in ('mask_ft', 'nonorm'):
-            a['mask'] = g.arr('uniform', [F, T], dtype=g.rdtype())
+            if g.coin(0.2):
+                a['mask'] = g.arr('bool', [F, T], p=0.6, some_true=True)   # binary mask
+            else:
+                a['mask'] = g.arr('uniform', [F, T], dtype=g.rdtype())
         elif v == 'mask_fkt':
             a['mask'] = g.arr('affiliation', [F, K, T])
         elif v == 'mask_kft':
@@ -1170,6 +1173,23 @@ class _Aligner:
         if a['method'] == 'call':
             return al(mask, *extra)
         return al.apply_mapping(mask, ctx.arr(a['mapping']))
+
+
+@entry('pa.default_plan', weight=1.5, group='alignment')
+class _PaDefaultPlan:
+    """The shipped default configurations (from_stft_size) and their plans."""
+    @staticmethod
+    def gen(g):
+        return {'stft_size': int(g.choice([512, 512, 1024])),
+                'metric': g.choice(['cos', 'euclidean'])}
+
+    @staticmethod
+    def run(ctx, a):
+        from pb_bss.permutation_alignment import DHTVPermutationAlignment
+        al = DHTVPermutationAlignment.from_stft_size(a['stft_size'], a['metric'])
+        return [al.alignment_plan,
+                {k: v for k, v in sorted(vars(al).items())
+                 if isinstance(v, (int, float, str))}]
 
 
 @entry('pa.functions', weight=3, group='alignment')
